@@ -349,6 +349,12 @@ def apply_op(t, op):
             return "get_sub_tree(keep_root)", t.get_sub_tree(list(keep), keep_root=True), keep, None
         if variant == 3:
             return "get_sub_tree(ignore_missing)", t.get_sub_tree(keep + ["no such tip"], ignore_missing=True), keep, None
+        if variant == 4:        # the in-place pruning API next to get_sub_tree, applied to a copy
+            c = t.deepcopy()
+            drop = set(tips) - set(keep)        # decided by name: an emptied internal node must be removed by the method itself
+            c.remove_deleted(lambda nd: nd.name in drop)
+            c.prune()
+            return "remove_deleted+prune", c, keep, None
     raise ValueError(op)
 
 
@@ -360,7 +366,8 @@ def opname_of(op):
     if op[0] == "file":
         return "file_" + op[1]
     if op[0] == "sub":
-        return ["get_sub_tree", "get_sub_tree(tipsonly)", "get_sub_tree(keep_root)", "get_sub_tree(ignore_missing)"][op[2]]
+        return ["get_sub_tree", "get_sub_tree(tipsonly)", "get_sub_tree(keep_root)", "get_sub_tree(ignore_missing)",
+                "remove_deleted+prune"][op[2]]
     return {"midpoint": "root_at_midpoint", "with_tip": "rooted_with_tip"}.get(op[0], op[0])
 
 
@@ -565,7 +572,7 @@ def arg_ops(n, sub_variants=(0,), thin=1):
     ops = [["with_tip", k] for k in range(n)] + [["rooted_at", k] for k in range(n)]
     masks = [m for m in range(1, 1 << n) if bin(m).count("1") >= 2]
     for v in sub_variants:
-        for m in (masks if v == 0 else masks[::thin]):
+        for m in (masks if v in (0, 4) else masks[::thin]):
             ops.append(["sub", m, v])
     return ops
 
@@ -576,7 +583,7 @@ def gen_transform(tier, seed):
     ns = range(2, 8) if thorough else range(2, 7)
     pats = ("cycle", "ones", "set", "decimal") if thorough else ("cycle", "ones")
     for n, m in models(ns, pats, rnd, named=(False, True) if thorough else (False,), mirrors=(False, True)):
-        ops = unary_ops() + [["deepcopy"], ["sorted", n]] + arg_ops(n, (0, 1, 2, 3), thin=1 if n <= 5 else 3)
+        ops = unary_ops() + [["deepcopy"], ["sorted", n]] + arg_ops(n, (0, 1, 2, 3, 4), thin=1 if n <= 5 else 3)
         for op in ops:
             yield [m, [op]]
     # trees whose root already sits on the midpoint of the longest path, with lengths that are not exact in binary
@@ -829,7 +836,8 @@ def contract_distance(case):
 
 # ================================================================================================ registry
 _OPS_DOC = ("unrooted, root_at_midpoint, sorted (default order / given order), copy, deepcopy, rooted_with_tip(every tip), "
-            "rooted_at(every internal node), get_sub_tree(every subset of >=2 tips; default, tipsonly, keep_root, ignore_missing)")
+            "rooted_at(every internal node), get_sub_tree(every subset of >=2 tips; default, tipsonly, keep_root, ignore_missing), "
+            "remove_deleted + prune on a copy (every subset of >= 2 tips)")
 
 BOUNDED = {
     "transform": {
